@@ -343,4 +343,168 @@ Proof.
     rewrite Hn. reflexivity.
 Qed.
 
+(* ---------- the table merger (descending): sorted inputs, unsorted inputs, prefix ---------- *)
+Lemma mg_chk_nil : forall desc fuel, mg_chk_loop score desc fuel [] = ([], None).
+Proof. intros desc [|f]; reflexivity. Qed.
+
+Lemma mg_inv_desc_sorted : forall r rest, mg_live_sorted (r, rest) -> mg_inv_desc r rest = false.
+Proof.
+  intros r [|r' rest'] H; [reflexivity|]. unfold mg_live_sorted in H. cbn [fst snd] in H.
+  apply StronglySorted_inv in H. destruct H as [_ F]. inversion F as [|? ? Hge _]; subst.
+  unfold mg_ge in Hge. cbn. apply Z.ltb_ge. lia.
+Qed.
+
+(* sorted inputs: the check never fires and the output is that of the unchecked merge *)
+Lemma mg_chk_sorted : forall fuel (st : list live),
+  (length (mg_rows st) <= fuel)%nat -> Forall mg_live_sorted st ->
+  mg_chk_loop score true fuel st = (mg_merge score fuel st, None).
+Proof.
+  induction fuel as [|f IH]; intros st Hlen Hs.
+  - destruct (mg_rows st) eqn:E; [|cbn in Hlen; lia]. apply mg_rows_nil in E. subst st. reflexivity.
+  - destruct st as [|d st0] eqn:Est; [reflexivity|]. rewrite <- Est in *.
+    destruct (mg_step_split st) as (pre & r & rest & post & Hst & Hpre & Hpost & Hm & Hc); [subst; discriminate|].
+    rewrite Hm, Hc. rewrite Hst in Hlen, Hs.
+    assert (Hi : mg_inv_desc r rest = false).
+    { apply mg_inv_desc_sorted. apply Forall_app in Hs. destruct Hs as [_ Hs]. now inversion Hs. }
+    rewrite Hi. rewrite IH; [reflexivity | eapply mg_len_stepped; eauto | now apply mg_stepped_sorted in Hs].
+Qed.
+
+Lemma mg_next_unsorted : forall r rest,
+  ~ mg_live_sorted (r, rest) -> mg_inv_desc r rest = false ->
+  Exists (fun p => ~ mg_live_sorted p) (mg_next rest).
+Proof.
+  intros r [|r' rest'] Hn Hi.
+  - exfalso. apply Hn. unfold mg_live_sorted. cbn. constructor; constructor.
+  - cbn [mg_next]. apply Exists_cons_hd. intros Hs'. apply Hn.
+    unfold mg_live_sorted in *. cbn [fst snd] in *. cbn in Hi. apply Z.ltb_ge in Hi.
+    constructor; [exact Hs'|]. constructor; [unfold mg_ge; lia|].
+    apply StronglySorted_inv in Hs'. destruct Hs' as [_ F].
+    eapply Forall_impl; [|exact F]. intros a Ha. unfold mg_ge in *. lia.
+Qed.
+
+(* an input with an inversion anywhere: the merge ends with ValueError *)
+Lemma mg_chk_unsorted : forall fuel (st : list live),
+  (length (mg_rows st) <= fuel)%nat -> Exists (fun p => ~ mg_live_sorted p) st ->
+  snd (mg_chk_loop score true fuel st) = Some EValue.
+Proof.
+  induction fuel as [|f IH]; intros st Hlen Hex.
+  - destruct (mg_rows st) eqn:E; [|cbn in Hlen; lia]. apply mg_rows_nil in E. subst st. inversion Hex.
+  - destruct st as [|d st0] eqn:Est; [inversion Hex|]. rewrite <- Est in *.
+    destruct (mg_step_split st) as (pre & r & rest & post & Hst & Hpre & Hpost & _ & Hc); [subst; discriminate|].
+    rewrite Hc. destruct (mg_inv_desc r rest) eqn:Ei; [reflexivity|].
+    rewrite Hst in Hlen, Hex.
+    assert (Hex' : Exists (fun p => ~ mg_live_sorted p) (pre ++ mg_next rest ++ post)).
+    { apply Exists_app in Hex. destruct Hex as [H|H]; [apply Exists_app; now left|].
+      apply Exists_cons in H. destruct H as [H|H].
+      - apply Exists_app; right. apply Exists_app; left. eapply mg_next_unsorted; eauto.
+      - apply Exists_app; right. apply Exists_app; now right. }
+    specialize (IH _ (mg_len_stepped _ _ _ _ _ Hlen) Hex').
+    destruct (mg_chk_loop score true f (pre ++ mg_next rest ++ post)) as [out e]. exact IH.
+Qed.
+
+(* whatever the inputs: the rows yielded (also those before a ValueError) are in order *)
+Lemma mg_chk_prefix_bounded : forall fuel (st : list live) z,
+  Forall (fun p => score (fst p) <= z) st ->
+  StronglySorted mg_ge (fst (mg_chk_loop score true fuel st)) /\
+  Forall (fun x => score x <= z) (fst (mg_chk_loop score true fuel st)).
+Proof.
+  induction fuel as [|f IH]; intros st z Hb.
+  - destruct st; cbn; split; constructor.
+  - destruct st as [|d st0] eqn:Est; [cbn; split; constructor|]. rewrite <- Est in *.
+    destruct (mg_step_split st) as (pre & r & rest & post & Hst & Hpre & Hpost & _ & Hc); [subst; discriminate|].
+    rewrite Hc.
+    assert (Hr : score r <= z).
+    { rewrite Hst in Hb. apply Forall_app in Hb. destruct Hb as [_ Hb]. now inversion Hb. }
+    destruct (mg_inv_desc r rest) eqn:Ei.
+    + cbn. split; repeat constructor; auto.
+    + assert (Hb' : Forall (fun p => score (fst p) <= score r) (pre ++ mg_next rest ++ post)).
+      { apply Forall_app. split; [eapply Forall_impl; [|exact Hpre]; cbn; intros; lia|].
+        apply Forall_app. split; [|exact Hpost].
+        destruct rest as [|r' rest']; cbn; constructor; [|constructor].
+        cbn in Ei. apply Z.ltb_ge in Ei. cbn. lia. }
+      destruct (IH _ _ Hb') as [S1 F1].
+      destruct (mg_chk_loop score true f (pre ++ mg_next rest ++ post)) as [out e]. cbn [fst] in *.
+      split.
+      * constructor; [exact S1|]. eapply Forall_impl; [|exact F1]. intros a Ha. unfold mg_ge. cbn in Ha. lia.
+      * constructor; [exact Hr|]. eapply Forall_impl; [|exact F1]. cbn. intros; lia.
+Qed.
+
+Lemma mg_heads_bounded : forall st : list live, exists z, Forall (fun p => score (fst p) <= z) st.
+Proof.
+  induction st as [|p st [z IH]]; [exists 0; constructor|].
+  exists (Z.max z (score (fst p))). constructor; [lia|].
+  eapply Forall_impl; [|exact IH]. cbn. intros; lia.
+Qed.
+
+Lemma mg_chk_prefix_sorted : forall fuel (st : list live),
+  StronglySorted mg_ge (fst (mg_chk_loop score true fuel st)).
+Proof. intros fuel st. destruct (mg_heads_bounded st) as [z Hz]. now apply (mg_chk_prefix_bounded fuel st z). Qed.
+
+(* a run that ends normally has delivered every row exactly once (no fuel assumption) *)
+Lemma mg_chk_ok_perm : forall fuel (st : list live) out,
+  mg_chk_loop score true fuel st = (out, None) -> Permutation out (mg_rows st).
+Proof.
+  induction fuel as [|f IH]; intros st out H.
+  - destruct st; cbn in H; inversion H; subst. constructor.
+  - destruct st as [|d st0] eqn:Est; [cbn in H; inversion H; constructor|]. rewrite <- Est in *.
+    destruct (mg_step_split st) as (pre & r & rest & post & Hst & _ & _ & _ & Hc); [subst; discriminate|].
+    rewrite Hc in H. destruct (mg_inv_desc r rest); [discriminate|].
+    destruct (mg_chk_loop score true f (pre ++ mg_next rest ++ post)) as [out' e] eqn:E.
+    inversion H; subst out e. rewrite Hst, mg_rows_split. apply Permutation_cons_app.
+    rewrite <- mg_rows_stepped. apply IH. exact E.
+Qed.
+
+(* the model's own failure mode is unreachable from enough fuel *)
+Lemma mg_chk_fuel : forall fuel (st : list live),
+  (length (mg_rows st) <= fuel)%nat -> snd (mg_chk_loop score true fuel st) <> Some EFuel.
+Proof.
+  induction fuel as [|f IH]; intros st Hlen.
+  - destruct (mg_rows st) eqn:E; [|cbn in Hlen; lia]. apply mg_rows_nil in E. subst st. discriminate.
+  - destruct st as [|d st0] eqn:Est; [discriminate|]. rewrite <- Est in *.
+    destruct (mg_step_split st) as (pre & r & rest & post & Hst & _ & _ & _ & Hc); [subst; discriminate|].
+    rewrite Hc. destruct (mg_inv_desc r rest); [discriminate|]. rewrite Hst in Hlen.
+    specialize (IH _ (mg_len_stepped _ _ _ _ _ Hlen)).
+    destruct (mg_chk_loop score true f (pre ++ mg_next rest ++ post)) as [out e]. exact IH.
+Qed.
+
+(* ---------- inputs <-> initial state ---------- *)
+Lemma mg_sorted_ge_dec : forall l : list row, {StronglySorted mg_ge l} + {~ StronglySorted mg_ge l}.
+Proof.
+  induction l as [|a l [IH|IH]].
+  - left. constructor.
+  - destruct (Forall_dec (mg_ge a) (fun b => Z_ge_dec (score a) (score b)) l) as [F|F].
+    + left. now constructor.
+    + right. intros H. apply StronglySorted_inv in H. tauto.
+  - right. intros H. apply StronglySorted_inv in H. tauto.
+Qed.
+
+Lemma mg_init_sorted : forall inputs : list (list row),
+  Forall (StronglySorted mg_ge) inputs <-> Forall mg_live_sorted (mg_init inputs).
+Proof.
+  induction inputs as [|l ls IH]; [split; constructor|].
+  unfold mg_init in *. cbn [flat_map]. rewrite Forall_app, Forall_cons_iff, <- IH.
+  destruct l as [|r t]; [|unfold mg_live_sorted; cbn [fst snd]; rewrite Forall_cons_iff].
+  - split; [intros [_ H]; split; [constructor | exact H] | intros [_ H]; split; [constructor | exact H]].
+  - split; [intros [H1 H2]; repeat split; auto | intros [[H1 _] H2]; split; auto].
+Qed.
+
+Lemma mg_init_unsorted : forall inputs : list (list row),
+  Exists (fun l => ~ StronglySorted mg_ge l) inputs <-> Exists (fun p => ~ mg_live_sorted p) (mg_init inputs).
+Proof.
+  induction inputs as [|l ls IH]; [split; intros H; inversion H|].
+  unfold mg_init in *. cbn [flat_map]. rewrite Exists_app, Exists_cons, <- IH.
+  destruct l as [|r t].
+  - split; [intros [H|H]; [exfalso; apply H; constructor | now right] | intros [H|H]; [inversion H | now right]].
+  - unfold mg_live_sorted. rewrite Exists_cons. cbn [fst snd].
+    split; [intros [H|H]; [left; now left | now right] | intros [[H|H]|H]; [now left | inversion H | now right]].
+Qed.
+
+Lemma mg_no_empty : forall inputs : list (list row),
+  existsb mg_is_nil inputs = false <-> Forall (fun l => l <> []) inputs.
+Proof.
+  induction inputs as [|l ls IH]; [split; [constructor | reflexivity]|].
+  cbn [existsb]. rewrite Forall_cons_iff, <- IH, orb_false_iff.
+  destruct l; cbn; split; intros [H1 H2]; split; auto; congruence.
+Qed.
+
 End MergeDesc.
